@@ -240,6 +240,7 @@ fn leaves(quick: bool) -> Vec<Sh> {
         Sh::MLs(vec![2, 3]),
         Sh::MPg(vec![]),
         Sh::MPg(vec![(4, vec![3]), (3, vec![])]),
+        Sh::MPg(vec![(0, vec![]), (4, vec![])]),
         Sh::Rc,
         Sh::Tr(false),
         Sh::Tr(true),
@@ -405,6 +406,18 @@ pub fn run(mut run: Run) -> i32 {
             match g.try_map_coords(|c| Ok::<_, usize>(fmap(k, c))) {
                 Ok(t) if t == m => {}
                 other => acc.viol(format!("try_map_coords(Ok) differs from map_coords (f{})", k), idx, || w(format!("{:?}", other))),
+            }
+        }
+        // the fallible form shows the coordinates to the function in traversal order (that order decides which error surfaces when several coordinates fail)
+        if !r.has_rect {
+            let seen = std::cell::RefCell::new(Vec::<C>::new());
+            let _ = g.try_map_coords(|c| {
+                seen.borrow_mut().push(c);
+                Ok::<_, usize>(fmap(2, c))
+            });
+            acc.evals += 1;
+            if *seen.borrow() != r.coords {
+                acc.viol("try_map_coords does not show the coordinates to the function in traversal order".into(), idx, || w(format!("order seen: {:?}", seen.borrow())));
             }
         }
         // fallible function failing at every position: the error of the first failing call is returned
